@@ -119,7 +119,7 @@ class Env:
                     v = env.single(n.id)
                     if v is not None and not any(isinstance(x, ast.Name) and x.id == n.id for x in ast.walk(v)):
                         return T(self.d - 1, self.frozen).visit(copy.deepcopy(v))
-                    if v is None and at is not None and n.id not in env.params:
+                    if v is None and at is not None:  # also a parameter that is re-bound before `at`
                         dv = dominating_def(env.fn, at, n.id)
                         if dv is not None:
                             return T(self.d - 1, self.frozen | {n.id}).visit(copy.deepcopy(dv))
@@ -757,3 +757,47 @@ def additive_terms(e: ast.AST) -> list[tuple[int, str]]:
 
     walk(e, 1)
     return sorted(out)
+
+
+def _lift_ifexp_stmt(s):
+    """`x = A if T else B` -> `if T: x = A  else: x = B` (None when s is not of that form)"""
+    if isinstance(s, ast.Assign) and isinstance(s.value, ast.IfExp):
+        a = ast.copy_location(ast.Assign(copy.deepcopy(s.targets), s.value.body), s)
+        b = ast.copy_location(ast.Assign(copy.deepcopy(s.targets), s.value.orelse), s)
+        return ast.copy_location(ast.If(s.value.test, [a], [b]), s)
+    return None
+
+
+def lift_ifexp_assign(f):
+    """Copy of Func `f` in which every assignment of a conditional expression is an if / else statement."""
+    node = copy.deepcopy(f.node)
+    changed = False
+
+    def rewrite(blk):
+        nonlocal changed
+        for i, s in enumerate(blk):
+            while True:
+                r = _lift_ifexp_stmt(blk[i])
+                if r is None:
+                    break
+                blk[i] = r
+                changed = True
+            s = blk[i]
+            for fld in ("body", "orelse", "finalbody"):
+                b = getattr(s, fld, None)
+                if isinstance(b, list) and b and isinstance(b[0], ast.stmt) and not isinstance(s, (ast.FunctionDef, ast.AsyncFunctionDef, ast.ClassDef)):
+                    rewrite(b)
+            if isinstance(s, ast.Try):
+                for h in s.handlers:
+                    rewrite(h.body)
+            if isinstance(s, ast.Match):
+                for c in s.cases:
+                    rewrite(c.body)
+
+    rewrite(node.body)
+    if not changed:
+        return f
+    ast.fix_missing_locations(node)
+    g = dataclasses.replace(f)
+    g.node = node
+    return g
